@@ -123,7 +123,8 @@ Theorem C12_config_context : forall (V : Type) (n : node V) (q : nat),
   (exists cls, class_of V q n = Some cls) /\ (exists p, last_path V q n = Some p /\ In (p, q) (walk V n)).
 Proof. exact config_context. Qed.
 
-(* CONFIGURED WIDTH OF THE OWN PARAMETER: a prior that occurs at exactly one place, held by a Model of class cls (at
+(* (about the pre-a8a9b5b lookup class_of; kept: for an unshared prior both lookups agree)
+   CONFIGURED WIDTH OF THE OWN PARAMETER: a prior that occurs at exactly one place, held by a Model of class cls (at
    structural path p) directly or as a member of a tuple prior, is looked up in the prior configuration under
    (cls, its own attribute / member name) *)
 Theorem C12_config_own : forall (V : Type) (p : path) (n : node V) cls ctor attrs k0 c0 rest q,
@@ -135,10 +136,10 @@ Theorem C12_config_own : forall (V : Type) (p : path) (n : node V) cls ctor attr
   cfg_name (p ++ k0 :: rest) = Ok (last (k0 :: rest) EmptyString).
 Proof. exact config_own. Qed.
 
-(* ... and NOT in general for a shared prior: the class comes from prior_class_dict (the child model wins), the name from
-   the last place in the walk.  Parameter 0 of ex_shared sits at KN.s and at KN.inner.a (class K2) and is looked up under
-   (K2, "s"), neither of its places: it gets K2.s's width 3 and its old limits (refuted; known finding) *)
-Theorem C12_config_own_refuted :
+(* HISTORY (before a8a9b5b, own_place_class = false): not for a shared prior -- the class came from prior_class_dict (the child
+   model wins), the name from the last place in the walk.  Parameter 0 of ex_shared sits at KN.s and at KN.inner.a (class K2)
+   and was looked up under (K2, "s"), neither of its places: K2.s's width 3 and its old limits.  Vacuous for the code as it is. *)
+Theorem C12_config_own_legacy_refuted :
   wf Q ex_shared /\
   walk Q ex_shared = [(["inner"; "a"]%string, 0%nat); (["inner"; "s"]%string, 1%nat); (["s"]%string, 0%nat)] /\
   PAFC01.Proofs.node_at Q ["inner"%string] ex_shared
@@ -149,9 +150,9 @@ Theorem C12_config_own_refuted :
     qpass (-1000) 1000 ex_shared_cfg ex_shared_specs (MMeans None None false [1 # 2; 1]) ex_shared
       = Ok (n', [(0%nat, s0); (1%nat, s1)]) /\
     s_sigma Q s0 = 3 /\ (s_lo Q s0, s_hi Q s0) = (-1, 1)).
-Proof. exact config_own_refuted. Qed.
+Proof. exact config_own_legacy_refuted. Qed.
 
-(* the same model under the repair variant (vacuous while own_place_class = false): configured under (KN, "s") *)
+(* the code as it is: the same shared prior is configured under (KN, "s"), holder and name of its last place *)
 Theorem C12_config_one_place_repaired :
   own_place_class = true ->
   exists n' s0 s1,
@@ -160,10 +161,9 @@ Theorem C12_config_one_place_repaired :
     s_sigma Q s0 == (1 # 4) * (1 # 2) /\ (s_lo Q s0, s_hi Q s0) = (-5, 5).
 Proof. exact config_one_place_repaired. Qed.
 
-(* REPAIR VARIANT, prepared and switched off (Model.own_place_class = false; proposed_fixes/C12-config-one-place): the
-   class of the lookup becomes `holder_class (last place)`.  It is defined for every prior of a model / collection in
-   either setting, and the holder of a place below a Model (direct attribute or tuple member) is that Model -- for shared
-   priors too, so that class and name then describe one and the same place. *)
+(* CONFIGURED WIDTH, shared priors included (a8a9b5b): the class of the lookup is `holder_class (last place)`.  It is defined
+   for every prior of a model / collection, and the holder of a place below a Model (direct attribute or tuple member) is
+   that Model, so that class and name describe one and the same place of the prior. *)
 Theorem C12_lookup_class_defined : forall (V : Type) (n : node V) (q : nat),
   wf V n -> is_pm V n = true -> In q (prior_ids V n) -> lookup_class V q n <> None.
 Proof. exact lookup_class_some. Qed.
@@ -318,7 +318,7 @@ Print Assumptions C12_total_bounded_float_refuted.
 Print Assumptions C12_limits_structure.
 Print Assumptions C12_fixed_instance.
 Print Assumptions C12_config_own.
-Print Assumptions C12_config_own_refuted.
+Print Assumptions C12_config_one_place_repaired.
 Print Assumptions C12_holder_class_own.
 Print Assumptions C12_own_limits.
 Print Assumptions C12_own_replacement.
